@@ -10,6 +10,21 @@ use similar::{Change, ChangeTag, TextDiff};
 
 struct Line(Option<usize>);
 
+/// `print!` / `println!` panic when standard output cannot be written to (closed pipe, full
+/// device): a diff that cannot be shown is no reason to abort the run.
+macro_rules! out {
+    ($($arg:tt)*) => {{
+        use std::io::Write as _;
+        let _ = write!(io::stdout(), $($arg)*);
+    }};
+}
+macro_rules! outln {
+    ($($arg:tt)*) => {{
+        use std::io::Write as _;
+        let _ = writeln!(io::stdout(), $($arg)*);
+    }};
+}
+
 const COLOR_BRIGHT_BLUE: u8 = 33;
 const COLOR_BRIGHT_BLACK: u8 = 244;
 
@@ -42,7 +57,7 @@ where
 {
     if log_enabled!(target: "diff", log::Level::Info) {
         iter.into_iter()
-            .for_each(|x| println!("{}{}", style.apply_to(prefix), style.apply_to(x)));
+            .for_each(|x| outln!("{}{}", style.apply_to(prefix), style.apply_to(x)));
     };
 }
 
@@ -77,7 +92,7 @@ where
 
         for (idx, group) in text_diff.grouped_ops(3).iter().enumerate() {
             if idx > 0 {
-                println!("{:-^1$}", "-", get_terminal_width());
+                outln!("{:-^1$}", "-", get_terminal_width());
             }
             for op in group {
                 for change in text_diff.iter_inline_changes(op) {
@@ -86,7 +101,7 @@ where
                         ChangeTag::Insert => ("+", Style::new().green()),
                         ChangeTag::Equal => (" ", Style::new().dim()),
                     };
-                    print!(
+                    out!(
                         "{}{} |{}",
                         style(Line(change.old_index())).dim(),
                         style(Line(change.new_index())).dim(),
@@ -94,13 +109,13 @@ where
                     );
                     for (emphasized, value) in change.iter_strings_lossy() {
                         if emphasized {
-                            print!("{}", s.apply_to(value).underlined().on_black());
+                            out!("{}", s.apply_to(value).underlined().on_black());
                         } else {
-                            print!("{}", s.apply_to(value));
+                            out!("{}", s.apply_to(value));
                         }
                     }
                     if change.missing_newline() {
-                        println!();
+                        outln!();
                     }
                 }
             }
@@ -137,7 +152,7 @@ where
             .map(format_change)
             .collect::<Vec<String>>()
             .join("");
-        print!("{diff_str}");
+        out!("{diff_str}");
     }
 }
 
